@@ -19,6 +19,7 @@ def run(ctx):
                 "and StoreToDisk loop over a pinned snapshot while two writers insert and delete neighbouring keys within the current epoch "
                 "(every pointer a reader keeps across its tokens is exposed to reclamation); allocator events and faults are judged by TLC (MemAPI.tla)")
     nwriters.model_check(ctx, T)
+    nwriters.conformance(ctx, T, 41)
     plan = [("guard", 150, True, False), ("registry", 300, False, False), ("guard-large", 60, True, True)]
     if T:
         plan = [("guard", 1500, True, False), ("registry", 3000, False, False), ("guard-large", 600, True, True), ("registry-large", 1000, False, True)]
